@@ -1,4 +1,5 @@
-/- C05 registration module: the raw-socket reader and decoders (Properties/C05) and the WebSocket receive side
-(Properties/C05Ws). -/
+/- C05 registration module: the raw-socket reader and decoders (Properties/C05), the WebSocket receive side
+(Properties/C05Ws) and the packet reader on top of the WebSocket wrapper (Properties/C05WsReader). -/
 import PahoProofs.Properties.C05
 import PahoProofs.Properties.C05Ws
+import PahoProofs.Properties.C05WsReader
